@@ -63,6 +63,9 @@ pub enum Op {
     Config { idx: u8 },
     /// the user edits the user-dictionary file on disk (then every open document is re-checked)
     EditUserDict { variant: u8 },
+    /// the client's settings change; before the notification about it arrives, an edit of one
+    /// document makes the server pull the (already new) settings
+    ConfigAfterPull { idx: u8, doc: u8 },
     /// the directory holding document 2 is deleted; the client reports the directory, with or
     /// without a trailing slash
     DeleteDir { slash: bool },
@@ -184,12 +187,12 @@ fn normalise(batch: &[Op], w: &World) -> Vec<Op> {
     let mut out: Vec<Op> = vec![];
     let mut used = [false; 4];
     for op in batch {
-        let global = matches!(op, Op::Config { .. } | Op::AddUser { .. } | Op::AddFile { .. } | Op::EditUserDict { .. });
+        let global = matches!(op, Op::Config { .. } | Op::ConfigAfterPull { .. } | Op::AddUser { .. } | Op::AddFile { .. } | Op::EditUserDict { .. });
         if global {
             // only when it can stand alone
             let applicable = match op {
                 // open finding KF-C09-untitled: a configuration change cannot refresh an untitled buffer
-                Op::Config { .. } => !(0..DOCS.len()).any(|i| !DOCS[i].2 && w.docs[i].open),
+                Op::Config { .. } | Op::ConfigAfterPull { .. } => !(0..DOCS.len()).any(|i| !DOCS[i].2 && w.docs[i].open),
                 Op::EditUserDict { .. } => true,
                 Op::AddUser { doc } | Op::AddFile { doc } => {
                     let i = *doc as usize % DOCS.len();
@@ -250,7 +253,7 @@ fn exec_batch(w: &mut World, batch: &[Op], salt: u64, ctx: &mut CaseCtx) -> Resu
     for op in batch {
         match op {
             Op::Save { doc } | Op::AddUser { doc } | Op::AddFile { doc } => w.write_disk(*doc as usize % DOCS.len())?,
-            Op::Config { .. } => {
+            Op::Config { .. } | Op::ConfigAfterPull { .. } => {
                 for i in 0..DOCS.len() {
                     if w.docs[i].open {
                         w.write_disk(i)?;
@@ -272,7 +275,7 @@ fn exec_batch(w: &mut World, batch: &[Op], salt: u64, ctx: &mut CaseCtx) -> Resu
     if config_with_closes {
         return exec_config_with_closes(w, batch, salt, ctx);
     }
-    let single_global = batch.len() == 1 && matches!(batch[0], Op::Config { .. } | Op::AddUser { .. } | Op::AddFile { .. } | Op::EditUserDict { .. });
+    let single_global = batch.len() == 1 && matches!(batch[0], Op::Config { .. } | Op::ConfigAfterPull { .. } | Op::AddUser { .. } | Op::AddFile { .. } | Op::EditUserDict { .. });
     // pre-pass (nothing of the batch is in flight yet): the lint JSON an editor would send with
     // HarperIgnoreLint comes from a code action
     let mut ignore_args: BTreeMap<usize, (Diag, Value)> = BTreeMap::new();
@@ -411,10 +414,36 @@ fn exec_batch(w: &mut World, batch: &[Op], salt: u64, ctx: &mut CaseCtx) -> Resu
                 }
                 ctx.class("user_dictionary_file_edited");
             }
+            Op::ConfigAfterPull { idx, doc } => {
+                note_config_change(w, *idx as usize % CONFIGS.len());
+                w.config_idx = *idx as usize % CONFIGS.len();
+                let settings = settings_for(&w.sb, w.config_idx);
+                // from now on the client answers configuration requests with the new settings
+                w.s.settings = settings.clone();
+                let fresh = Server::start(&w.sb, settings.clone(), None)?;
+                let old = std::mem::replace(&mut w.r, fresh);
+                let _ = old.shutdown();
+                // an edit (same text, new version) reaches the server first and pulls them
+                let j = (0..DOCS.len()).map(|k| (*doc as usize + k) % DOCS.len()).find(|&j| w.docs[j].open && DOCS[j].2);
+                if let Some(j) = j {
+                    w.version += 1;
+                    let pubs = w.s.publications_for(&uris[j]);
+                    w.s.notify("textDocument/didChange", json!({"textDocument": {"uri": uris[j], "version": w.version}, "contentChanges": [{"text": w.docs[j].text}]}))?;
+                    let u = uris[j].clone();
+                    w.s.pump_until(T, "publication of the edit that precedes the configuration notification", |s| s.publications_for(&u) > pubs)?;
+                    expect_pubs[j] += 1;
+                    ctx.class("settings_pulled_before_the_change_notification");
+                }
+                w.s.notify("workspace/didChangeConfiguration", json!({"settings": settings}))?;
+                for i in 0..DOCS.len() {
+                    if w.docs[i].open {
+                        expect_pubs[i] += 1;
+                    }
+                }
+            }
             Op::Config { idx } => {
                 note_config_change(w, *idx as usize % CONFIGS.len());
-                note_config_change(w, *idx as usize % CONFIGS.len());
-    w.config_idx = *idx as usize % CONFIGS.len();
+                w.config_idx = *idx as usize % CONFIGS.len();
                 let settings = settings_for(&w.sb, w.config_idx);
                 w.s.settings = settings.clone();
                 // the reference is a *fresh* server that only ever saw the final settings
@@ -684,6 +713,7 @@ fn op() -> BoxedStrategy<Op> {
         1 => (0u8..4, any::<u8>()).prop_map(|(doc, sel)| Op::Ignore { doc, sel }),
         1 => Just(Op::Record),
         2 => any::<u8>().prop_map(|idx| Op::Config { idx }),
+        2 => (any::<u8>(), 0u8..4).prop_map(|(idx, doc)| Op::ConfigAfterPull { idx, doc }),
         2 => any::<u8>().prop_map(|variant| Op::EditUserDict { variant }),
         1 => any::<bool>().prop_map(|slash| Op::DeleteDir { slash }),
         2 => any::<u8>().prop_map(|which| Op::DeleteOther { which }),
@@ -698,6 +728,7 @@ pub fn history_strategy(max_batches: usize) -> BoxedStrategy<History> {
     let batch = prop_oneof![
         6 => proptest::collection::vec(op(), 1..7),
         1 => (any::<u8>(), 0u8..4, 0u8..4).prop_map(|(idx, a, b)| vec![Op::Config { idx }, Op::Close { doc: a }, Op::Close { doc: b }]),
+        1 => (any::<u8>(), 0u8..4).prop_map(|(idx, doc)| vec![Op::ConfigAfterPull { idx, doc }]),
     ];
     (first, proptest::collection::vec((batch, any::<u64>()), 0..max_batches))
         .prop_map(|(f, mut rest)| {
@@ -812,6 +843,8 @@ pub fn run(run: &mut Run) {
     run.require_class("scheduled_histories", "handlers_completed_out_of_arrival_order", (n / 3) as u64);
     run.require_class("scheduled_histories", "close_or_delete_in_a_concurrent_batch", (n / 10) as u64);
     run.require_class("scheduled_histories", "configuration_change_racing_with_close", (n / 10) as u64);
+    run.require_class("scheduled_histories", "settings_pulled_before_the_change_notification", (n / 10) as u64);
+    run.require_class("scheduled_histories", "deletion_of_a_path_that_prefixes_an_open_document", (n / 10) as u64);
 }
 
 pub fn replay(_check: &str, case: Value, _run: &mut Run) -> Result<(), String> {
